@@ -6,7 +6,7 @@ CONFIG = dict(
               "in-flight requests; differential run of the model against a whole single-process node (real front + back services, real "
               "ClientSession over in-memory connections, virtual time) + the property predicate on what the raw clients read",
     level_text="Machine-checked proof in Lean 4, for every configuration (handler tables, route function, directory), session, route string, "
-               "payload and id: a request (id != 0) yields exactly one Response on the same connection with the same id (request_one_response); "
+               "payload and id < 2^32: a request (id != 0) yields exactly one Response on the same connection with the same id (request_one_response_partial; the full statement RequestOneResponse over all wire ids is REFUTED by request_one_response_full_fails — known finding D19: the envelope truncates the id to 32 bits, request_answered_with_truncated_id says what happens instead); "
                "when it names a request-shaped handler of a reachable target the handler runs once there and its result is relayed unchanged, "
                "the target being the front iff the route names the front's type, else the live instance of that type the route function selects "
                "(request_served_by_target, target_spec, response_origin_is_target, front_answers_iff_own_type, relay_unchanged); every other request "
@@ -16,17 +16,18 @@ CONFIG = dict(
                "connections and time steps, written + in-flight responses = requests per (connection, id), and 42 s after the last message each "
                "has exactly its responses (history_conservation, history_exactly_one, history_no_response_to_notify). The model is tied to the "
                "code on every run: generated cases (1-3 clients, bursts written concurrently, bindings to live / unknown / dead / wrong-type "
-               "instances, all zoo methods, malformed routes, ids 0/1/127/128/16383/16384/2^32-1, valid/undecodable/empty/null payloads, slow and "
+               "instances, all zoo methods, malformed routes, ids 0/1/127/128/16383/16384/2^32-1 and a stream of ids >= 2^32 (2^32, 2^32+5, 2^33+1, 2^64-1), valid/undecodable/empty/null payloads, slow and "
                "late handlers, 31 s forward timeouts) run through the real node and compared as multisets per connection.",
     level_note="Partial: handlers complete exactly once (never/twice excluded by the Beh type); requests are independent in the model (shared "
-               "Service.Handlers bookkeeping is C01's property, mailbox delivery C09's); ids < 2^32 (ClientReqId is uint32(msg.ID)); routes are "
+               "Service.Handlers bookkeeping is C01's property, mailbox delivery C09's); ids >= 2^32 are inside the check as known finding D19 (model truncates like the code, the spec monitor reports C02/request-id-truncated); routes are "
                "valid UTF-8 (protobuf string); handler error texts are non-empty (msgs.Response.Error == \"\" means success); the timeout instant "
                "is nominal (31 s, observed at 5 s granularity); TCP acceptor, actor remote and etcd are bypassed by the engine.",
     lean_targets=["Cell2v.Props.C02", "modeld_c02"],
     driver="modeld_c02",
     driver_root="Cell2v.Driver.C02",
     audit="Audit/C02.lean",
-    required_theorems=["request_one_response", "request_served_by_target", "response_origin_is_target", "relay_unchanged",
+    required_theorems=["request_one_response_partial", "request_one_response_full_fails", "request_answered_with_truncated_id",
+                       "request_served_by_target", "response_origin_is_target", "relay_unchanged",
                        "unserviceable_gets_error", "notify_once_no_response", "history_conservation", "history_exactly_one"],
     harness_pkg="./c02",
     mode="diff",
@@ -41,7 +42,7 @@ CONFIG = dict(
     rule="corpus (the D4a/D4b witnesses, an interleaving case) then generated cases from one PRNG (VERIF_SEED): reset with 1-3 handshaken clients; "
          "binds of the routing key to chat-1/chat-2/unknown/dead/wrong-type/empty; bursts of 1-6 messages written by all clients at once "
          "(route: 85% type{gate,chat,hall,room} x group{zoo,nogrp,\"\"} x method{echo,fail,boom,slow,late,tell,nosuch,\"\"}, 15% malformed; id: 0 and "
-         "varint boundaries or random, unique per connection; payload 80% valid with a case-unique value, else undecodable/empty/wrong type/null); "
+         "varint boundaries or random, unique per connection also modulo 2^32; 1 message in 64 carries an id >= 2^32 on a serviceable route (known finding D19); payload 80% valid with a case-unique value, else undecodable/empty/wrong type/null); "
          "5 s time steps; a final 45 s flush. One evaluation = one op; observation = per-connection multiset of (kind,id,errflag,payload hex) "
          "read by the clients + multiset of handler invocations per service; non-trivial = something was read or invoked",
     trusted_base=[
@@ -56,7 +57,7 @@ CONFIG = dict(
         "every handler completes exactly once (a handler that never completes or completes twice is user misbehaviour, excluded)",
         "a back-end reply that is not the msgs.Response built by ProcessForwardMsg (other type, wrong SessionId/ClientReqId) is dropped silently by the front (theorem mismatched_reply_dropped); ProcessForwardMsg itself echoes both fields",
         "a request forwarded to an instance of the wrong type, to a PID without a living actor, or to a handler slower than 30 s is answered by the request-timeout error",
-        "request ids < 2^32; routes valid UTF-8 and <= 255 bytes; handler error texts non-empty; handler results JSON-serialisable",
+        "routes valid UTF-8 and <= 255 bytes; handler error texts non-empty; handler results JSON-serialisable",
         "the connection stays open until the response is written (session life cycle is C05)",
     ],
 )
